@@ -238,6 +238,7 @@ fn run_on<S: EntryIoStream + Send + Sync + 'static>(stream: S, c: &Case) -> (Str
                 }
             }
             "bgq" => {
+                let n_ids = ids.len();
                 let (q, handle) = BackgroundQueueBuilder::new()
                     .capacity(ids.len().max(1) + 8)
                     .flush_interval(Duration::from_secs(50))
@@ -245,8 +246,12 @@ fn run_on<S: EntryIoStream + Send + Sync + 'static>(stream: S, c: &Case) -> (Str
                 for id in ids {
                     q.append(IdEntry(id));
                 }
-                let rt = tokio::runtime::Builder::new_current_thread().enable_all().build().unwrap();
-                rt.block_on(q.flush_async());
+                // half of the cases: no flush before the shutdown, so the entries (failing ones included)
+                // are drained by `shut_down` itself — an error there must not stop the drain either
+                if n_ids % 2 == 0 {
+                    let rt = tokio::runtime::Builder::new_current_thread().enable_all().build().unwrap();
+                    rt.block_on(q.flush_async());
+                }
                 drop(handle);
             }
             _ => {}
